@@ -34,6 +34,8 @@ UNITY = """#include "gmp++/gmp++.h"
 #include "givaro/givinteger.h"
 """
 
+NCHUNK = 12
+
 CTYPE = {"S64": "int64_t", "U64": "uint64_t", "S32": "int32_t", "U32": "uint32_t", "S16": "int16_t", "U16": "uint16_t",
          "S8": "signed char", "U8": "unsigned char", "B": "bool"}
 
@@ -239,15 +241,27 @@ def generate(outdir_lean, gendir, log=lambda *a: None):
     # ---- specs + theorems
     meta = {"functions": [], "untranslatable": bad}
     specs = {}
-    with open(os.path.join(gen, "IntegerSpecs.lean"), "w") as fs, open(os.path.join(gen, "IntegerThms.lean"), "w") as ft:
+    class Chunks:
+        """theorem text is distributed round-robin over NCHUNK modules so that lake proves them in parallel"""
+        def __init__(self, n):
+            self.bufs = [[] for _ in range(n)]
+            self.i = 0
+            self.where = {}
+        def write(self, txt):
+            self.bufs[self.i].append(txt)
+        def next(self, name):
+            self.i = (self.i + 1) % len(self.bufs)
+            self.where[name] = self.i
+    ft = Chunks(NCHUNK)
+    THM_HDR = ("/- GENERATED by translate/gen_integer.py -- do not edit.\n"
+               "   One theorem per overload: under the range of each machine-word argument and the documented\n"
+               "   precondition, the translated body satisfies its specification. -/\n"
+               "import GivaroModel.Generated.IntegerOps\nimport GivaroModel.Generated.IntegerSpecs\nimport GivaroModel.Lemmas.IntegerTactics\n"
+               "set_option maxRecDepth 4000\nset_option linter.unusedVariables false\nnamespace Givaro.Gen\nopen Givaro\n\n")
+    with open(os.path.join(gen, "IntegerSpecs.lean"), "w") as fs:
         fs.write("/- GENERATED by translate/gen_integer.py from translate/integer_spec.py -- do not edit.\n"
                  "   Per overload: the precondition, the specified result and the Bool checker used by the driver. -/\n"
                  "import GivaroModel.Prim.Gmp\nimport GivaroModel.Spec.IntegerSpec\nset_option linter.unusedVariables false\nnamespace Givaro.Gen\nopen Givaro\n\n")
-        ft.write("/- GENERATED by translate/gen_integer.py -- do not edit.\n"
-                 "   One theorem per overload: under the range of each machine-word argument and the documented\n"
-                 "   precondition, the translated body satisfies its specification. -/\n"
-                 "import GivaroModel.Generated.IntegerOps\nimport GivaroModel.Generated.IntegerSpecs\nimport GivaroModel.Lemmas.IntegerTactics\n"
-                 "set_option maxRecDepth 4000\nset_option maxErrors 100000\nset_option linter.unusedVariables false\nnamespace Givaro.Gen\nopen Givaro\n\n")
         for t in ts:
             sp = integer_spec.spec_for(t)
             if sp is not None and sp["ret"] is None and t.ret[0] == "void" and sp["cmp"] == "exact":
@@ -269,6 +283,7 @@ def generate(outdir_lean, gendir, log=lambda *a: None):
                     fs.write("def %s_chk %s(rr_ : Res) : Bool := decide (rr_ = %s_spec %s)\n\n" % (t.key, binder, t.key, args))
                 else:
                     fs.write("def %s_chk %s(rr_ : Res) : Bool := %s\n\n" % (t.key, binder, lean_chk(t, sp)))
+                ft.next(t.key)
                 hyps = range_hyps(t) + ["(hp%d : %s)" % (i, p) for i, p in enumerate(pre_l)]
                 tac = TACTIC.get(sp["fam"], "gmp_lin")
                 if tac == "gmp_div":
@@ -287,7 +302,16 @@ def generate(outdir_lean, gendir, log=lambda *a: None):
                 rec["spec"] = dict(fam=sp["fam"], prop=sp["prop"], pre=[list(p) for p in sp["pre"]], exact=exact, cmp=sp["cmp"])
             meta["functions"].append(rec)
         fs.write("end Givaro.Gen\n")
-        ft.write("end Givaro.Gen\n")
+    for f_old in os.listdir(gen):
+        if f_old.startswith("IntegerThms"):
+            os.unlink(os.path.join(gen, f_old))
+    for ci, buf in enumerate(ft.bufs):
+        with open(os.path.join(gen, "IntegerThms%02d.lean" % ci), "w") as fh:
+            fh.write(THM_HDR + "".join(buf) + "end Givaro.Gen\n")
+    with open(os.path.join(gen, "IntegerThms.lean"), "w") as fh:
+        fh.write("/- GENERATED: umbrella importing every theorem chunk -/\n" + "".join("import GivaroModel.Generated.IntegerThms%02d\n" % ci for ci in range(NCHUNK)))
+    meta["thm_chunk"] = ft.where
+    meta["nchunk"] = NCHUNK
 
     # ---- driver table
     with open(os.path.join(outdir_lean, "Driver", "IntegerTable.lean"), "w") as fd:
